@@ -149,6 +149,15 @@ struct layout_right {
             for (size_t k = E::rank(); k-- > r + 1;) { s *= long(e.extent(k)); }
             return index_type(s);
         }
+        template <typename OE>
+        friend constexpr auto operator==(mapping const& l, mapping<OE> const& r) noexcept -> bool
+        {
+            if (E::rank() != OE::rank()) { return false; }
+            for (size_t k = 0; k < E::rank(); ++k) {
+                if (long(l.extents().extent(k)) != long(r.extents().extent(k))) { return false; }
+            }
+            return true;
+        }
         static constexpr auto is_always_unique() -> bool { return true; }
         static constexpr auto is_always_exhaustive() -> bool { return true; }
         static constexpr auto is_always_strided() -> bool { return true; }
@@ -192,6 +201,15 @@ struct layout_left {
             long s = 1;
             for (size_t k = 0; k < r; ++k) { s *= long(e.extent(k)); }
             return index_type(s);
+        }
+        template <typename OE>
+        friend constexpr auto operator==(mapping const& l, mapping<OE> const& r) noexcept -> bool
+        {
+            if (E::rank() != OE::rank()) { return false; }
+            for (size_t k = 0; k < E::rank(); ++k) {
+                if (long(l.extents().extent(k)) != long(r.extents().extent(k))) { return false; }
+            }
+            return true;
         }
         static constexpr auto is_always_unique() -> bool { return true; }
         static constexpr auto is_always_exhaustive() -> bool { return true; }
